@@ -177,12 +177,27 @@ func init() {
 			}
 			fmt.Fprintf(&sb, "/-- `%s` -/\ndef expr_%s : String := %q\n", n, n, r1ReturnExpr(c, fd))
 		}
+		// epicHdrLen: guard and the two return expressions
+		eh, err := fn("epicHdrLen")
+		if err != nil {
+			return err
+		}
+		var rets []string
+		ast.Inspect(eh.Body, func(n ast.Node) bool {
+			if r, ok := n.(*ast.ReturnStmt); ok && len(r.Results) == 1 {
+				rets = append(rets, c.Expr(r.Results[0]))
+			}
+			return true
+		})
+		fmt.Fprintf(&sb, "/-- if-conditions of `epicHdrLen` -/\ndef conds_epicHdrLen : List String := %s\n", LeanStrList(r1IfConds(c, eh)))
+		fmt.Fprintf(&sb, "/-- return expressions of `epicHdrLen` (then-branch first) -/\ndef rets_epicHdrLen : List String := %s\n", LeanStrList(rets))
 		consts := []constSpec{
 			{"pkg/slayers", "CmnHdrLen", ""}, {"pkg/slayers", "LineLen", ""},
 			{"pkg/slayers/path/scion", "MetaLen", ""}, {"pkg/slayers/path", "InfoLen", ""},
 			{"pkg/slayers/path", "HopLen", ""}, {"pkg/slayers/path", "MacLen", ""},
 			{"pkg/slayers/path", "MACBufferSize", ""},
 			{"pkg/addr", "IABytes", ""},
+			{"pkg/slayers/path/epic", "MetadataLen", "EpicMetadataLen"},
 			{"pkg/slayers", "SCMPTypeDestinationUnreachable", ""}, {"pkg/slayers", "SCMPTypeParameterProblem", ""},
 			{"pkg/slayers", "SCMPTypeExternalInterfaceDown", ""}, {"pkg/slayers", "SCMPTypeInternalConnectivityDown", ""},
 			{"pkg/slayers", "SCMPCodeNoRoute", ""}, {"pkg/slayers", "SCMPCodeInvalidPacketSize", ""},
@@ -206,6 +221,19 @@ func init() {
 				as = s.Name
 			}
 			fmt.Fprintf(&sb, "/-- `%s.%s` -/\ndef %s : Nat := %s\n", s.Dir, s.Name, as, v)
+		}
+		// path type identifiers have an imported type (path.Type): evaluate the declaring
+		// expression on the AST
+		for _, pt := range [][2]string{{"pkg/slayers/path/scion", "ScionPathType"}, {"pkg/slayers/path/epic", "EpicPathType"}} {
+			ex, f, iota, err := wireFindConst(c, pt[0], "PathType")
+			if err != nil {
+				return err
+			}
+			v, err := wireEval(c, pt[0], f, iota, ex, 0)
+			if err != nil {
+				return err
+			}
+			fmt.Fprintf(&sb, "/-- `%s.PathType` -/\ndef %s : Nat := %s\n", pt[0], pt[1], v.String())
 		}
 		sb.WriteString("end Scion.Gen.Router1\n")
 		return c.Emit("Router1.lean", sb.String())
